@@ -48,9 +48,16 @@ Proof. vm_compute. reflexivity. Qed.
 Lemma tag_nonempty : valid_tag [] = false.
 Proof. vm_compute. reflexivity. Qed.
 
+(* everything below holds for every set of linked hash implementations *)
+Section Avail.
+Variable avail : str -> bool.
+Notation valid_digest := (Reference.valid_digest avail).
+Notation format := (Reference.format avail).
+Notation validate_reference := (Reference.validate_reference avail).
+
 Lemma digest_has_colon d : valid_digest d = true -> contains c_colon d = true.
 Proof.
-  unfold valid_digest. destruct (split_first c_colon d) as [[a e]|] eqn:E; [|discriminate].
+  unfold Reference.valid_digest. destruct (split_first c_colon d) as [[a e]|] eqn:E; [|discriminate].
   intros _. apply split_first_Some in E as [-> _]. rewrite contains_app.
   apply orb_true_iff. right. reflexivity.
 Qed.
@@ -70,7 +77,7 @@ Definition digest_char (c : N) : bool :=
 
 Lemma digest_chars d : valid_digest d = true -> forallb digest_char d = true.
 Proof.
-  unfold valid_digest. destruct (split_first c_colon d) as [[a e]|] eqn:E; [|discriminate].
+  unfold Reference.valid_digest. destruct (split_first c_colon d) as [[a e]|] eqn:E; [|discriminate].
   apply split_first_Some in E as [-> _].
   destruct (find _ alg_table) as [[a' n]|] eqn:F; [|discriminate].
   intro H. apply andb_true_iff in H as [_ H].
@@ -120,7 +127,7 @@ Section Grammar.
       ok_registry reg -> valid_repository repo = true -> contains c_at junk = false ->
       RefGrammar (reg ++ [c_slash] ++ repo ++ [c_colon] ++ junk ++ [c_at]) (mkRef reg repo []).
 
-  Notation parse := (parse valid_registry).
+  Notation parse := (Reference.parse avail valid_registry).
 
   Lemma parse_form_D reg repo :
     ok_registry reg -> valid_repository repo = true ->
@@ -253,7 +260,7 @@ Section Grammar.
 
   Theorem format_parse r : wf_ref r -> parse (format r) = Some r.
   Proof.
-    destruct r as [reg repo rf]. unfold wf_ref, format. simpl.
+    destruct r as [reg repo rf]. unfold wf_ref, Reference.format. simpl.
     intros (Hr & Hp & Hf).
     destruct repo as [|x repo]; [now rewrite repo_nonempty in Hp|].
     destruct Hf as [->|[Ht|Hd]].
@@ -277,8 +284,8 @@ Section RepoParse.
   Hypothesis Hbase_reg : ok_registry valid_registry breg.
   Hypothesis Hbase_repo : valid_repository brepo = true.
 
-  Notation repo_parse := (repo_parse valid_registry breg brepo).
-  Notation parse := (parse valid_registry).
+  Notation repo_parse := (Reference.repo_parse avail valid_registry breg brepo).
+  Notation parse := (Reference.parse avail valid_registry).
 
   Lemma parse_no_slash s : contains c_slash s = false -> parse s = None.
   Proof. intro H. unfold Reference.parse. apply split_first_None in H. now rewrite H. Qed.
@@ -303,20 +310,20 @@ Section RepoParse.
 
   Theorem repo_parse_tag t : valid_tag t = true -> repo_parse t = Some (mkRef breg brepo t).
   Proof.
-    intro H. unfold Reference.repo_parse.
+    intro H. unfold Reference.repo_parse, repo_parse_gen.
     rewrite (parse_no_slash _ (tag_no_slash _ H)).
     assert (E : split_first c_at t = None) by (apply split_first_None; now apply tag_no_at).
-    rewrite E. unfold validate_reference.
+    rewrite E. unfold Reference.validate_reference.
     destruct t as [|x t]; [now rewrite tag_nonempty in H|].
     rewrite (tag_no_colon _ H), H. reflexivity.
   Qed.
 
   Theorem repo_parse_digest d : valid_digest d = true -> repo_parse d = Some (mkRef breg brepo d).
   Proof.
-    intro H. unfold Reference.repo_parse.
+    intro H. unfold Reference.repo_parse, repo_parse_gen.
     rewrite (parse_no_slash _ (digest_no_slash _ H)).
     assert (E : split_first c_at d = None) by (apply split_first_None; now apply digest_no_at).
-    rewrite E. unfold validate_reference.
+    rewrite E. unfold Reference.validate_reference.
     destruct d as [|x d]; [discriminate|].
     rewrite (digest_has_colon _ H), H. reflexivity.
   Qed.
@@ -325,10 +332,10 @@ Section RepoParse.
     contains c_slash junk = false -> contains c_at junk = false -> valid_digest d = true ->
     repo_parse (junk ++ [c_at] ++ d) = Some (mkRef breg brepo d).
   Proof.
-    intros Hs Ha H. unfold Reference.repo_parse.
+    intros Hs Ha H. unfold Reference.repo_parse, repo_parse_gen.
     rewrite parse_no_slash.
     2:{ rewrite contains_app, Hs. simpl. now apply digest_no_slash. }
-    simpl app. rewrite (split_first_app _ _ _ Ha). rewrite H.
+    simpl app. rewrite (split_first_app _ _ _ Ha). rewrite Hs, H. simpl.
     destruct d; [discriminate | reflexivity].
   Qed.
 
@@ -336,7 +343,7 @@ Section RepoParse.
     valid_tag t = true ->
     repo_parse (breg ++ [c_slash] ++ brepo ++ [c_colon] ++ t) = Some (mkRef breg brepo t).
   Proof.
-    intro H. unfold Reference.repo_parse.
+    intro H. unfold Reference.repo_parse, repo_parse_gen.
     rewrite parse_form_C; auto. simpl. rewrite !str_eqb_refl. simpl.
     destruct t; [now rewrite tag_nonempty in H | reflexivity].
   Qed.
@@ -345,15 +352,24 @@ Section RepoParse.
     valid_digest d = true ->
     repo_parse (breg ++ [c_slash] ++ brepo ++ [c_at] ++ d) = Some (mkRef breg brepo d).
   Proof.
-    intro H. unfold Reference.repo_parse.
+    intro H. unfold Reference.repo_parse, repo_parse_gen.
     rewrite parse_form_A; auto. simpl. rewrite !str_eqb_refl. simpl.
+    destruct d; [discriminate | reflexivity].
+  Qed.
+
+  Theorem repo_parse_full_tag_digest junk d :
+    contains c_at junk = false -> valid_digest d = true ->
+    repo_parse (breg ++ [c_slash] ++ brepo ++ [c_colon] ++ junk ++ [c_at] ++ d) = Some (mkRef breg brepo d).
+  Proof.
+    intros Hj H. unfold Reference.repo_parse, repo_parse_gen.
+    rewrite parse_form_B; auto. simpl. rewrite !str_eqb_refl. simpl.
     destruct d; [discriminate | reflexivity].
   Qed.
 
   Theorem repo_parse_other_rejected s r :
     parse s = Some r -> (r_registry r <> breg \/ r_repository r <> brepo) -> repo_parse s = None.
   Proof.
-    intros H D. unfold Reference.repo_parse. rewrite H.
+    intros H D. unfold Reference.repo_parse, repo_parse_gen. rewrite H.
     destruct (str_eqb (r_registry r) breg && str_eqb (r_repository r) brepo) eqn:E; auto.
     apply andb_true_iff in E as [A B]. apply str_eqb_spec in A, B. tauto.
   Qed.
@@ -363,7 +379,7 @@ Section RepoParse.
     r_registry r = breg /\ r_repository r = brepo /\ r_reference r <> [] /\
     (valid_tag (r_reference r) = true \/ valid_digest (r_reference r) = true).
   Proof.
-    unfold Reference.repo_parse.
+    unfold Reference.repo_parse, repo_parse_gen.
     destruct (parse s) as [r0|] eqn:P.
     - destruct (str_eqb (r_registry r0) breg && str_eqb (r_repository r0) brepo) eqn:E; [|discriminate].
       apply andb_true_iff in E as [A B]. apply str_eqb_spec in A, B.
@@ -371,18 +387,87 @@ Section RepoParse.
       apply parse_wf in P as (_ & _ & W). rewrite R in *.
       repeat split; auto; try discriminate. destruct W as [W|W]; [discriminate | exact W].
     - destruct (split_first c_at s) as [[j d]|] eqn:E.
-      + destruct (valid_digest d) eqn:V; [|discriminate]. simpl.
+      + destruct (true && contains c_slash j); [discriminate|].
+        destruct (valid_digest d) eqn:V; [|discriminate]. simpl.
         destruct d; [discriminate|]. intro H. injection H as <-. simpl.
         repeat split; auto; discriminate.
       + destruct (validate_reference s) eqn:V; [|discriminate]. simpl.
         destruct s as [|x s]; [discriminate|]. intro H. injection H as <-. simpl.
         repeat split; auto; try discriminate.
-        unfold validate_reference in V. destruct (contains c_colon (x :: s)); auto.
+        unfold Reference.validate_reference in V. destruct (contains c_colon (x :: s)); auto.
   Qed.
 
   Theorem repo_parse_empty : repo_parse [] = None.
   Proof. reflexivity. Qed.
+
+  (* all six accepted forms of one reference resolve to the same reference *)
+  Theorem repo_forms_agree :
+    (forall t, valid_tag t = true ->
+       repo_parse t = Some (mkRef breg brepo t) /\
+       repo_parse (breg ++ [c_slash] ++ brepo ++ [c_colon] ++ t) = Some (mkRef breg brepo t)) /\
+    (forall d, valid_digest d = true ->
+       repo_parse d = Some (mkRef breg brepo d) /\
+       repo_parse (breg ++ [c_slash] ++ brepo ++ [c_at] ++ d) = Some (mkRef breg brepo d) /\
+       (forall junk, contains c_slash junk = false -> contains c_at junk = false ->
+         repo_parse (junk ++ [c_at] ++ d) = Some (mkRef breg brepo d)) /\
+       (forall junk, contains c_at junk = false ->
+         repo_parse (breg ++ [c_slash] ++ brepo ++ [c_colon] ++ junk ++ [c_at] ++ d)
+         = Some (mkRef breg brepo d))).
+  Proof.
+    split.
+    - intros t Ht. split; [now apply repo_parse_tag | now apply repo_parse_full_tag].
+    - intros d Hd. split; [now apply repo_parse_digest|].
+      split; [now apply repo_parse_full_digest|]. split.
+      + intros junk Hs Ha. now apply repo_parse_tag_at_digest.
+      + intros junk Ha. now apply repo_parse_full_tag_digest.
+  Qed.
+
+  (* A string that contains a slash is accepted only as a valid fully qualified reference of the
+     base: nothing else with a path in it (foreign or malformed) is ever re-targeted. *)
+  Theorem repo_parse_path_is_base s r :
+    repo_parse s = Some r -> contains c_slash s = true ->
+    parse s = Some r /\ r_registry r = breg /\ r_repository r = brepo.
+  Proof.
+    intros H Hs. pose proof (repo_parse_result_in_base s r H) as (A & B & _).
+    split; [|split; assumption].
+    revert H. unfold Reference.repo_parse, repo_parse_gen.
+    destruct (parse s) as [r0|] eqn:P.
+    - destruct (str_eqb (r_registry r0) breg && str_eqb (r_repository r0) brepo); [|discriminate].
+      destruct (r_reference r0); [discriminate|]. intro H. now injection H as <-.
+    - intro H. exfalso. revert H.
+      destruct (split_first c_at s) as [[j d]|] eqn:E.
+      + apply split_first_Some in E as [-> _]. rewrite contains_app in Hs. simpl in Hs.
+        destruct (contains c_slash j) eqn:J; [discriminate|]. simpl.
+        destruct (valid_digest d) eqn:V; [|discriminate].
+        apply digest_no_slash in V. unfold contains in V, Hs. rewrite V in Hs. discriminate.
+      + destruct (validate_reference s) eqn:V; [|discriminate]. intros _.
+        unfold Reference.validate_reference in V. destruct s as [|x s]; [discriminate|].
+        destruct (contains c_colon (x :: s)).
+        * apply digest_no_slash in V. congruence.
+        * apply tag_no_slash in V. congruence.
+  Qed.
+
+  (* ... spelled out on the string: base registry '/' base repository, then ':' or '@' *)
+  Theorem repo_parse_path_prefix s r :
+    repo_parse s = Some r -> contains c_slash s = true ->
+    exists c t, s = breg ++ [c_slash] ++ brepo ++ c :: t /\ (c = c_colon \/ c = c_at).
+  Proof.
+    intros H Hs. pose proof (repo_parse_result_in_base s r H) as (_ & _ & Hne & _).
+    destruct (repo_parse_path_is_base s r H Hs) as (P & A & B).
+    apply parse_sound in P. destruct P; simpl in *; subst; try congruence.
+    - exists c_colon, tag. split; [reflexivity | now left].
+    - exists c_at, d. split; [reflexivity | now right].
+    - exists c_colon, (junk ++ [c_at] ++ d). split; [reflexivity | now left].
+  Qed.
 End RepoParse.
+
+Theorem repo_rejects_other_paths (valid_registry : str -> bool) breg brepo s r :
+  Reference.repo_parse avail valid_registry breg brepo s = Some r -> contains c_slash s = true ->
+  (Reference.parse avail valid_registry s = Some r /\ r_registry r = breg /\ r_repository r = brepo) /\
+  exists c t, s = breg ++ [c_slash] ++ brepo ++ c :: t /\ (c = c_colon \/ c = c_at).
+Proof.
+  intros H Hs. split; [now apply repo_parse_path_is_base | now apply (repo_parse_path_prefix valid_registry breg brepo s r)].
+Qed.
 
 (* ---------- URL slot ---------- *)
 
@@ -472,6 +557,20 @@ Proof.
     rewrite <- app_assoc, app_assoc. simpl ([c_slash] ++ _). now apply after_last_app.
   - replace (b "/referrers/") with (b "/referrers" ++ [c_slash]) by reflexivity.
     rewrite <- app_assoc, app_assoc. simpl ([c_slash] ++ _). now apply after_last_app.
+Qed.
+
+End Avail.
+
+(* before the fix: a malformed foreign path in front of a digest was re-targeted to the base *)
+Theorem repo_parse_prefix_retargets :
+  exists avail vr breg brepo s r,
+    ok_registry vr breg /\ valid_repository brepo = true /\
+    repo_parse_prefix avail vr breg brepo s = Some r /\ contains c_slash s = true /\ parse avail vr s = None.
+Proof.
+  exists (fun _ => true), (fun _ => true), (b "docker.io"), (b "library/x"),
+         (b "ghcr.io/Org/app@sha256:e3b0c44298fc1c149afbf4c8996fb92427ae41e4649b934ca495991b7852b855"),
+         (mkRef (b "docker.io") (b "library/x") (b "sha256:e3b0c44298fc1c149afbf4c8996fb92427ae41e4649b934ca495991b7852b855")).
+  unfold ok_registry. repeat split; vm_compute; reflexivity.
 Qed.
 
 (* ---------- tag grammar: the regex is exactly the documented rule ---------- *)
